@@ -70,6 +70,39 @@ pub fn run(cx: &mut Ctx) {
                         variants.push((m, Some(fam), "poly1305_accumulator_on_p+v"));
                         cx.cover("poly1305_edge_messages", &format!("{:?}|v={}", fam, v));
                     }
+                    // accumulator values that stress the carry chain between limbs (radix 2^26 / 2^32 / 2^44 / 2^64),
+                    // reached after the last block or after the block before it; a rotating subset per length
+                    const JS: [u32; 8] = [26, 32, 44, 52, 64, 78, 88, 104];
+                    let nsel = cx.tier.pick(1usize, 3, 8);
+                    for sel in 0..nsel {
+                        let j = JS[(len / 16 + sel + ks) % JS.len()];
+                        for (below, d) in [(false, 0u8), (false, 3), (true, 0), (true, 2)] {
+                            let mid = len >= 32 && (sel + d as usize) % 2 == 1;
+                            let npre = if mid { len - 32 } else { len - 16 };
+                            let mut crafted = None;
+                            for _try in 0..24 {
+                                let prefix = rng.bytes(npre);
+                                let target = super::polyedge::limb_edge_target(j, below, d, rng.u64() as u128 | (rng.u64() as u128) << 64);
+                                if let Some(blk) = super::polyedge::solve_block_for(&ks_[..16], &prefix, target) {
+                                    let mut ct = prefix;
+                                    ct.extend_from_slice(&blk);
+                                    if super::polyedge::accumulator(&ks_[..16], &ct) != target.reduce() {
+                                        cx.violation("HARNESS|C01|poly1305_limb_edge_construction_failed", json!({"j":j,"len":len}));
+                                        break;
+                                    }
+                                    if mid {
+                                        ct.extend_from_slice(&rng.bytes(16));
+                                    }
+                                    crafted = Some(ct);
+                                    break;
+                                }
+                            }
+                            let Some(ct) = crafted else { continue };
+                            let m: Vec<u8> = ct.iter().zip(ks_[32..].iter()).map(|(a, b)| a ^ b).collect();
+                            variants.push((m, Some(fam), "poly1305_accumulator_on_limb_edge"));
+                            cx.cover("poly1305_limb_edge_messages", &format!("2^{}|{}|{}", j, if below { "ones_below" } else { "zeros_above" }, if mid { "before_last_block" } else { "after_last_block" }));
+                        }
+                    }
                 }
             }
             for (msg, only_family, variant) in variants {
